@@ -17,11 +17,11 @@ pub fn filter_configs() -> Vec<(&'static str, Option<ProcessedDltFilterConfig>)>
     let set = |v: &[&str]| -> HashSet<String> { v.iter().map(|s| s.to_string()).collect() };
     vec![
         ("no filter", None),
-        ("filter that keeps everything", Some(ProcessedDltFilterConfig { min_log_level: None, app_ids: None, ecu_ids: None, context_ids: None, app_id_count: 0, context_id_count: 0 })),
-        ("filter that drops everything (empty app-id set, count 1)", Some(ProcessedDltFilterConfig { min_log_level: None, app_ids: Some(set(&[])), ecu_ids: None, context_ids: None, app_id_count: 1, context_id_count: 0 })),
-        ("min level Error + ECU ids {ECU1}", Some(ProcessedDltFilterConfig { min_log_level: Some(LogLevel::Error), app_ids: None, ecu_ids: Some(set(&["ECU1"])), context_ids: None, app_id_count: 0, context_id_count: 0 })),
-        ("context ids {CTX}, count 2", Some(ProcessedDltFilterConfig { min_log_level: None, app_ids: None, ecu_ids: None, context_ids: Some(set(&["CTX"])), app_id_count: 0, context_id_count: 2 })),
-        ("ECU ids {NOPE} (rejects every message that names its ECU) + min level Fatal", Some(ProcessedDltFilterConfig { min_log_level: Some(LogLevel::Fatal), app_ids: None, ecu_ids: Some(set(&["NOPE"])), context_ids: None, app_id_count: 0, context_id_count: 0 })),
+        ("filter that keeps everything", Some(crate::common::PF { min_log_level: None, app_ids: None, ecu_ids: None, context_ids: None, app_id_count: 0, context_id_count: 0 }.build())),
+        ("filter that drops everything (empty app-id set, count 1)", Some(crate::common::PF { min_log_level: None, app_ids: Some(set(&[])), ecu_ids: None, context_ids: None, app_id_count: 1, context_id_count: 0 }.build())),
+        ("min level Error + ECU ids {ECU1}", Some(crate::common::PF { min_log_level: Some(LogLevel::Error), app_ids: None, ecu_ids: Some(set(&["ECU1"])), context_ids: None, app_id_count: 0, context_id_count: 0 }.build())),
+        ("context ids {CTX}, count 2", Some(crate::common::PF { min_log_level: None, app_ids: None, ecu_ids: None, context_ids: Some(set(&["CTX"])), app_id_count: 0, context_id_count: 2 }.build())),
+        ("ECU ids {NOPE} (rejects every message that names its ECU) + min level Fatal", Some(crate::common::PF { min_log_level: Some(LogLevel::Fatal), app_ids: None, ecu_ids: Some(set(&["NOPE"])), context_ids: None, app_id_count: 0, context_id_count: 0 }.build())),
     ]
 }
 
